@@ -7,6 +7,7 @@ key sets (duplicates, empty keys), any stripe count > 0 and **any hash function*
 collisions).  Helper lemmas: Conc/LatchLemmas.lean, Conc/LatchOrder.lean.
 -/
 import NoKVModel.Conc.LatchOrder
+import NoKVModel.Conc.LatchSeq
 
 namespace NoKV.Props.C20
 open NoKV NoKV.Conc NoKV.Conc.Latch
@@ -51,6 +52,36 @@ theorem C20_mutex (c : LatchCfg) (hc : c.Good) (hash : Bytes → Nat) (s : St)
   have := (C20_mutex_latched c ⟨hc.1, hc.2.1, hc.2.2.2⟩ hash s hr i j ti tj hij hi hj).2 k hki hkj
   rw [hc.2.2.1] at this
   cases this.1
+
+/-- **Acquire locks each needed stripe exactly once, in ascending order** — for every stripe
+count `n > 0`, every hash function (any collisions) and every key list (duplicates, keys colliding on
+one stripe, empty keys).  (a) The stripe list Acquire computes is strictly ascending (so no stripe
+occurs twice: a request never blocks on itself), lies below `n`, and contains exactly the stripes
+`hash k % n` of the keys it latches.  (b) In every reachable state a request that is acquiring or
+holding has locked, in this order, a prefix of that list and still has to lock the rest; a holder
+has locked all of it. -/
+theorem C20_acquire_exactly_once (c : LatchCfg) (hc : c.LockGood) (hash : Bytes → Nat) :
+    (∀ n keys, 0 < n →
+      (indices c n hash keys).Pairwise (· < ·) ∧
+      (∀ a ∈ indices c n hash keys, a < n) ∧
+      (∀ a, a ∈ indices c n hash keys ↔
+        ∃ k ∈ keys, ¬ (c.skipsEmptyKeys = true ∧ k = []) ∧ hash k % n = a)) ∧
+    (∀ s, Reachable (sys c hash) s → ∀ tid t, s.thr tid = some t →
+      (t.phase = .acquiring ∨ t.phase = .holding) →
+      t.got.reverse ++ t.todo = indices c s.n hash t.keys ∧ (t.phase = .holding → t.todo = [])) := by
+  refine ⟨?_, ?_⟩
+  · intro n keys hn
+    refine ⟨indices_strict c hc.1 hc.2.1 n hash keys, indices_lt c n hn hash keys, ?_⟩
+    intro a
+    constructor
+    · exact indices_sound c n hash keys a
+    · rintro ⟨k, hk, hne, rfl⟩
+      exact indices_mem c n hash keys k hk hne
+  · intro s hr tid t ht hph
+    have h1 := SeqInv.reachable c hash s hr tid t ht hph
+    have h2 := KeysInv.reachable c hash s hr tid t ht hph
+    rw [← h2]
+    exact h1
 
 /-- **No deadlock**: in every reachable state in which some request has not finished, some
 request can take a step (ordered acquisition: the waiter for the largest wanted stripe is never
@@ -131,6 +162,11 @@ theorem C20_fails_asis_emptykey (c : LatchCfg)
   · decide
 
 /-! ### non-vacuity -/
+
+/-- 128 stripes, a duplicated key and two distinct keys colliding on stripe 64, plus stripe 3:
+the stripe list is [3, 64] — stripe 64 once -/
+example : indices LatchCfg.good 128 (fun k => k.headD 0) [[64, 97], [3, 97], [64, 97], [64, 98]] = [3, 64] := by
+  decide
 
 example : LatchCfg.good.Good := by decide
 
